@@ -59,6 +59,13 @@ pub struct Qcow2Dev<T> {
     // the first one's write or fsync is still in flight.
     refcount_flush_lock: AsyncMutex<()>,
 
+    // read_at()/write_at() work on the mappings they looked up while the
+    // data I/O is in flight.  They hold this lock shared from the lookup to
+    // the end of the I/O; discard takes it exclusively before it punches and
+    // frees the clusters it has unmapped, so that nobody is still using such
+    // a cluster when the allocator hands it out again.
+    data_io_lock: AsyncRwLock<()>,
+
     file: T,
     backing_file: Option<Box<Qcow2Dev<T>>>,
     pub info: Qcow2Info,
@@ -120,6 +127,7 @@ impl<T: Qcow2IoOps> Qcow2Dev<T> {
             need_flush: AtomicBool::new(false),
             flush_lock: AsyncMutex::new(()),
             refcount_flush_lock: AsyncMutex::new(()),
+            data_io_lock: AsyncRwLock::new(()),
         };
 
         Ok(dev)
